@@ -102,6 +102,19 @@ CHECKS['C02'] = dict(
          'TLC-simulated deep forests and random forests (trace-validated per derivation) extend depth.',
     design_ref='4 (C02)', technique='TLA+/TLC model checking + behaviour replay (BFS + simulation) + trace validation',
     note=_NOTE + ' The eager side is evaluated by NumPy, as the statement defines it.')
+CHECKS['C03'] = dict(
+    text='Waveforms.tla: TLC proves that the transcription of _extract_waveform equals the zero-padded '
+         'window of the statement, that the chunked export assigns each spike to exactly one yielded '
+         'interval and writes the windows in spike order with the declared count/dtype, and that the '
+         'subset-store lookup returns the window restricted to the stored channels, for every recording '
+         'length <= 5 (7), every chunk grid, every sorted spike multiset, window lengths 1..4 (5), three '
+         'sample types x three unit factors. Every terminal state (~33k quick) is realised as a flat '
+         'multi-file recording whose chunk bounds are the grid and driven through all routes (direct '
+         'extraction from reader and array, export + np.load, store lookups in two orders) with '
+         'int64/uint64/int32/uint32 spike vectors; random larger recordings incl. .cbin are validated '
+         'by the trace specification with wrappers on iter_chunks and NpyWriter.append.',
+    design_ref='4 (C03)', technique='TLA+/TLC model checking + exhaustive spec-to-code replay + trace validation',
+    note=_NOTE + ' TemplateModel.get_waveforms (store vs raw) is exercised under C10.')
 
 NOT_APPLICABLE = {}
 for e in ENGINES:
